@@ -104,7 +104,11 @@ def run_instance(prog, ctx, inst, wrappers, ra, rb, rc, rd):
         for st in g.sites:
             (table if decidable(prog, st.reach, rows[0], aliases) else other).append(st)
         pred = G.f_or(*[st.reach for st in table])
-        nrows, bad = G.truth_table(prog, pred, rows, inst['spec'], None, aliases)
+        try:
+            nrows, bad = G.truth_table(prog, pred, rows, inst['spec'], None, aliases)
+        except (Undecided, KeyError, TypeError) as ex_:
+            ctx.undecided(ra, iid, fn, 'exit predicate [%s] cannot be evaluated on the table: %s' % (G.f_show(pred)[:200], ex_))
+            continue
         form = 'exit iff ' + G.f_show(pred)
         if bad:
             row, got, want = bad[0]
@@ -246,13 +250,70 @@ def find_loop(f):
     return None
 
 
+def order_guard_by_algorithm(prog, ctx, E, ctor, wrappers):
+    """The order guard written with a standard algorithm: std::adjacent_find(X.begin(), X.end(), pred) != X.end() exits iff
+    some neighbouring pair satisfies pred(previous, next); pred must be `next <= previous`."""
+    inst = 'Interpolation:strictly-increasing'
+    xname = ctor.params[0]['name']
+    fields = [xname] + [i2['field'] for i2 in ctor.inits if i2.get('field') and strip_casts(i2['init']).get('name') == xname]
+    mention = []
+    for st in G.exit_sites(prog, ctor, wrappers):
+        for a in G.f_atoms(st.reach):
+            for n in walk_expr(a):
+                if n.get('k') == 'Call' and (n.get('callee') or {}).get('q') in ('std::adjacent_find', 'std::is_sorted', 'std::is_sorted_until') and \
+                        any(x.get('name') in fields for x in walk_expr(n) if x.get('k') in ('Ref', 'Member')):
+                    mention.append((st, a, n))
+    if not mention:
+        ctx.violated(E, inst, ctor, 'no element-wise guard on the order of the abscissae found')
+        return
+    st, atom, call = mention[0]
+    a = strip(atom)
+    try:
+        if (call['callee']['q'] != 'std::adjacent_find' or len(call['args']) != 3 or a.get('k') != 'Call' or a.get('kind') != 'op' or a.get('op') != '!='):
+            raise Undecided('order guard uses %s in a form that is not adjacent_find(begin, end, pred) != end' % call['callee']['q'])
+        sx = Symx(prog, ctor)
+        from ..symx import State as _State, LambdaVal
+        stt = _State({})
+        its = [sx.iterator(strip_casts(x), stt) for x in call['args'][:2]]
+        other = [x for x in a['args'] if not any(y is call for y in walk_expr(x))]
+        end_it = sx.iterator(strip_casts(other[0]), stt) if other else None
+        whole = its[0] and its[1] and end_it and its[0][1] == 0 and its[1] == end_it and str(its[1][1]).startswith('len(') and its[0][0] == its[1][0]
+        if not whole or its[0][0].replace('this.', '') not in fields:
+            raise Undecided('adjacent_find does not range over the whole abscissa list')
+        # the predicate: a lambda (possibly bound to a local) applied to (previous, next)
+        pred = strip_casts(call['args'][2])
+        while pred.get('k') in ('Construct', 'Copy') and (pred.get('args') or pred.get('e')):
+            pred = strip_casts(pred['args'][0]) if pred.get('k') == 'Construct' else strip_casts(pred['e'])
+        lam = None
+        if pred.get('k') == 'Lambda':
+            lam = pred
+        elif pred.get('k') == 'Ref':
+            for d in [d_ for s_ in walk_stmts(ctor.body) if s_['k'] == 'Decl' for d_ in s_['decls']]:
+                if d['id'] == pred.get('id') and d.get('init') is not None:
+                    l0 = strip_casts(d['init'])
+                    while l0.get('k') in ('Construct', 'Copy') and (l0.get('args') or l0.get('e')):
+                        l0 = strip_casts(l0['args'][0]) if l0.get('k') == 'Construct' else strip_casts(l0['e'])
+                    if l0.get('k') == 'Lambda':
+                        lam = l0
+        if lam is None:
+            raise Undecided('predicate of adjacent_find is not a lambda')
+        xp, xn = sp.symbols('x_prev x_next', real=True)
+        v = sx.apply_lambda(LambdaVal(lam, {}), None, stt, vals=[xp, xn])
+        c = sx.as_bool(v)
+        ok = rel_equiv(c, sp.Le(xn, xp))
+        ctx.decide(E, inst, ctor, ok, 'adjacent_find over the whole list with predicate next <= previous: exits iff some neighbouring pair is not increasing',
+                   'the order guard does not cover "exists i in [1,N): X[i] <= X[i-1]": predicate(previous, next) = %s' % c, line=st.line)
+    except Undecided as ex_:
+        ctx.undecided(E, inst, ctor, 'order guard outside the understood fragment: %s' % ex_, line=st.line)
+
+
 def elementwise(prog, ctx, E, wrappers):
     # 1. strictly increasing abscissae
     ctor = prog.fn(L + 'Interpolation::Interpolation', 4)
     st = loop_site(prog, ctor, wrappers, '<=') or loop_site(prog, ctor, wrappers, '>=') or \
         loop_site(prog, ctor, wrappers, '<') or loop_site(prog, ctor, wrappers, '>')
     if st is None:
-        ctx.violated(E, 'Interpolation:strictly-increasing', ctor, 'no element-wise guard on the order of the abscissae found')
+        order_guard_by_algorithm(prog, ctx, E, ctor, wrappers)
     else:
         lp = find_loop(st.reach)
         sx = Symx(prog, ctor)
